@@ -663,7 +663,11 @@ func (s *Sim) Reconsider(b *refchain.Block) {
 			s.Fail("reconsider:unknown-block-ok", "ReconsiderBlock(%s) on a block not in the index returned nil", b.Name)
 		}
 	} else {
-		if err != nil {
+		if err != nil && s.Cfg.Prune != 0 && strings.Contains(err.Error(), "does not exist") {
+			// a pruning node that has deleted block data the switch back needs cannot complete it: the flags are
+			// cleared, the chain stays where it is (the tip oracle for pruning nodes accepts that); not judged
+			s.K.Count("reconsider.pruned_node_cannot_switch", 1)
+		} else if err != nil {
 			s.Fail("reconsider:error", "ReconsiderBlock(%s) failed: %v", b.Name, err)
 		}
 		delete(s.Manual, b)
